@@ -43,6 +43,7 @@ type Gen struct {
 	Walk      float64 // per-block relative price step (uniform in +-Walk/2)
 	JumpEvery int     // one +-30% jump every n blocks on average (0 = never)
 	FeeProb   float64 // probability a tx pays a fee
+	MultiTx   float64 // probability that an actor sends a further tx in the same block
 	Actors    []*chain.Actor
 	Pool3     bool
 	names     []string
@@ -50,7 +51,7 @@ type Gen struct {
 }
 
 func New(w *chain.World, seed int64, mix Mix) *Gen {
-	g := &Gen{W: w, R: rand.New(rand.NewSource(seed)), Mix: mix, MaxTx: 5, Hostile: 0.25, Walk: 0.06, JumpEvery: 60, Actors: w.Users}
+	g := &Gen{W: w, R: rand.New(rand.NewSource(seed)), Mix: mix, MaxTx: 5, Hostile: 0.25, Walk: 0.06, JumpEvery: 60, Actors: w.Users, MultiTx: 0.15}
 	g.names = mix.names()
 	for _, n := range g.names {
 		g.total += mix[n]
@@ -77,7 +78,6 @@ func (g *Gen) Amt(lo, hi float64) math.Int {
 	x := lo * powf(hi/lo, g.R.Float64())
 	return math.NewInt(int64(x))
 }
-
 
 // WalkPrices moves the feeder's ATOM and ELYS prices.
 func (g *Gen) WalkPrices() {
@@ -472,7 +472,6 @@ func (g *Gen) Op(name string, ac *chain.Actor, ctx sdk.Context) sdk.Msg {
 	return nil
 }
 
-
 // Block draws the transactions of one block: at most one per actor.
 func (g *Gen) Block() []*chain.TxRecord {
 	ctx := g.W.ReadCtx()
@@ -497,6 +496,16 @@ func (g *Gen) Block() []*chain.TxRecord {
 		t := g.W.TxFee(ac, fee, m)
 		t.Tag = name
 		txs = append(txs, t)
+		// now and then the same account sends more transactions in the same block (same block time:
+		// same lock-up timestamps, consecutive sequence numbers)
+		for k := 0; k < 2 && g.MultiTx > 0 && g.R.Float64() < g.MultiTx; k++ {
+			n2 := g.pick()
+			if m2 := g.Op(n2, ac, ctx); m2 != nil {
+				t2 := g.W.Tx(ac, m2)
+				t2.Tag = n2
+				txs = append(txs, t2)
+			}
+		}
 	}
 	return txs
 }
